@@ -13,7 +13,7 @@ RULE = ("Hypothesis-generated synthetic rulesets with the Markov structure first
         "with prob' = prob / (1 - P(Markov)) within 1e-12 relative - identical to D when there is no Markov structure; Markov "
         "alone + skip_brute must emit nothing. all_lower: the loaded grammar must be the model with every C<n> replaced by the "
         "single group {L^n: 1.0}, all other variables unchanged, and the guess language the model's all-lower language. Second "
-        "part: a session started with flags, interrupted, and resumed with a plain --load must continue under the saved flags. "
+        "part: a session started with flags, interrupted, and resumed with --load (with or without other flags on the command line) must continue under the saved flags. "
         "Non-trivial = ruleset without Markov, or Markov not in first position, or both flags on; distinct = hash of (model, flags).")
 ASSUMPTIONS = ["well-formed rulesets; P(Markov) < 1 unless Markov is the only structure"]
 
